@@ -182,7 +182,11 @@ class UniformInt(DiscreteRandomVariable):
         return self.lo + (self.hi - self.lo)/2
 
     def sample(self):
-        return math.floor(self.lo + unit()*(self.hi-self.lo+1))
+        # Exact integer arithmetic (a double is a ratio of two integers): the
+        # float sum lo + u*n rounds up to hi+1 when lo is large compared with
+        # the width, and loses the bounds altogether beyond 2**53.
+        n, d = unit().as_integer_ratio()
+        return self.lo + n*(self.hi-self.lo+1)//d
 
     def __str__(self):
         return f"UniformInt(lo={self.lo}, hi={self.hi})"
